@@ -4,7 +4,7 @@
 // real code uses (`rsa::SecretKey`, ...), so do NOT combine with shims/serlen_ext.rs (foreign crates `rsa`,
 // `dsa` of the same names).  Include after a Serialize trait (shims/serlen_sink.rs or shims/secret_reader.rs).
 // ---------------------------------------------------------------------------------
-//@trusted T4 `impl Serialize for crypto::{rsa, dsa, elgamal, ecdsa, ecdh}::SecretKey` (proved in U75c; rsa: except for the finding rsa-secret-to_mpi-expect-panics-on-non-coprime-primes, i.e. for keys whose primes are coprime) and `crypto::{ed25519, eddsa_legacy, ed448, x25519, x448}::SecretKey` (proved in U75d): to_writer appends wire() and preserves same_dest, write_len() == |wire()|
+//@trusted T4 `impl Serialize for crypto::{rsa, dsa, elgamal, ecdsa, ecdh}::SecretKey` (proved in U75c; rsa: under the type invariant `p invertible modulo q`, which crypto::rsa::SecretKey::try_from_mpi - the only constructor fed from parsed input - establishes since /repo commit e1accb3, also proved in U75c; key generation: random distinct primes) and `crypto::{ed25519, eddsa_legacy, ed448, x25519, x448}::SecretKey` (proved in U75d): to_writer appends wire() and preserves same_dest, write_len() == |wire()|
 //@trusted T1 the wire image of in-memory secret key material (a few MPIs / fixed arrays held in memory) is shorter than 2^58 octets
 pub mod rsa {
     use super::*;
